@@ -248,3 +248,75 @@ def ro1(ctx):
                       'the rolling reader is built without reading the first block of the first file: recovery would start on an all-zero block and see an empty log')
     if n == 0:
         ctx.missing('reader-ctor', 'no construction of RollingReader found')
+
+
+@rule('FH1', ['C01', 'C06'], floor=1, template='provenance+guard')
+def fh1(ctx):
+    """Every retained record keeps its own WAL file alive: the handle stored with a new record is a clone of
+    the file the record was written to, or the previous record's handle only when that is the same file."""
+    FN = 'rolling::file_number::FileNumber'
+    n = 0
+    for b in ctx.f.bodies.values():
+        if b.generic_dup() or not b.path.startswith('mem::queue::MemQueue::'):
+            continue
+        pushes = [cs for cs in b.calls if re.search(r'Vec::<mem::queue::RecordMeta>::push$', cs.name)]
+        fparams = [i for i in range(1, b.arg_count + 1) if b.local_ty(i) == '&' + FN]
+        if not pushes or not fparams:
+            continue
+        fp = fparams[0]
+        fl = flow_of(b)
+        for ps in pushes:
+            # the RecordMeta aggregate pushed and its file_number operand
+            al = op_local(ps.args[1]) if len(ps.args) > 1 else None
+            handle = None
+            for o in (b.trace_local(al) if al is not None else []):
+                if o[0] == 'rv' and o[2]['k'] == 'agg' and o[2].get('adt', '').endswith('RecordMeta'):
+                    for nm, op in zip(o[2]['fields'], o[2]['ops']):
+                        if nm == 'file_number':
+                            handle = op
+            if handle is None:
+                continue
+            n += 1
+            hl = None
+            for o in b.trace_local(op_local(handle)) if op_local(handle) is not None else []:
+                if o[0] == 'rv' and o[2]['k'] == 'agg' and o[2].get('variant') == 'Some':
+                    hl = op_local(o[2]['ops'][0])
+            hops = 0
+            while hl is not None and hops < 8:
+                d1 = b.single_def(hl)
+                if d1 and d1[1] == 'assign' and not d1[2]['place']['p'] and d1[2]['rv']['k'] == 'use' and op_local(d1[2]['rv']['op']) is not None:
+                    hl = op_local(d1[2]['rv']['op'])
+                    hops += 1
+                else:
+                    break
+            defs = b.defs.get(hl, []) if hl is not None else []
+            eqs = []
+            for (bi, c, te, fe, cs) in b.switches_on_call(lambda c: 'PartialEq' in c.name and c.name.endswith('::eq') and 'FileNumber' in c.name):
+                back = set()
+                for a in cs.args:
+                    back |= fl.backward(set(fl.op_nodes(a)), skip_mem=True)
+                if ('l', fp) in back:
+                    eqs.append(te)
+            bad = []
+            okc = 0
+            for (p, kind, data) in defs:
+                if kind != 'call':
+                    bad.append('assigned at %s from something that is not a call' % b.loc(p))
+                    continue
+                src = data
+                if src.name == '<%s as std::clone::Clone>::clone' % FN:
+                    back = fl.backward(set(fl.op_nodes(src.args[0])), skip_mem=True)
+                    if ('l', fp) in back:
+                        okc += 1
+                    else:
+                        bad.append('clone at %s is not a clone of the file the record was written to' % b.loc(p))
+                else:
+                    # moved out of the previous meta (take/unwrap/replace ...): only on the equality edge
+                    if any(b.edge_dominates(te, p) for te in eqs):
+                        okc += 1
+                    else:
+                        bad.append('handle taken from the previous record at %s without the same-file test' % b.loc(p))
+            ctx.check(not bad and okc > 0, '%s:record-handle' % b.path, where(b, ps.point), 'stored handle = clone(file of this record) or the previous handle under `previous file == this file`',
+                      'a record can be stored with a handle to a different WAL file than the one it was written to (%s): its file could be deleted while the record is retained' % '; '.join(bad))
+    if n == 0:
+        ctx.missing('push', 'no RecordMeta push with a FileNumber parameter found')
